@@ -49,7 +49,7 @@ FILLERS = {
     "Pa() AS MyType": "Pa() AS MyType", "Pr AS MyType": "Pr AS MyType", "Pi() AS INTEGER": "Pi() AS INTEGER", "Ps$()": "Ps$()",
     "Pn AS LONG": "Pn AS LONG", "Pu AS Undef": "Pu AS Undef", "Pq%()": "Pq%()",
     "#99999999999": "#99999999999", "#256": "#256", "#0": "#0", "#-1": "#-1", "#1.5": "#1.5", "#N%": "#N%", "#": "#", "#Arr(1)": "#Arr(1)", "#Rec.X": "#Rec.X", "#(1)": "#(1)", "#1 + 1": "#1 + 1", "#MyConst": "#MyConst",
-    "#S$": "#S$", "#D#": "#D#",
+    "#S$": "#S$", "#D#": "#D#", "c": "c", "x": "x", "z": "z", "-5": "-5", "32768": "32768",
     "(Arr())": "(Arr())", "ArrS$()": "ArrS$()", "RecArr()": "RecArr()", "Arr(1)()": "Arr(1)()",
     "FxArr()": "FxArr()", "(FxArr())": "(FxArr())", "FxArr(1)": "FxArr(1)",
     "My.Const": "My.Const", "My.Const%": "My.Const%", "MY.CONST": "MY.CONST", "My.Const.X": "My.Const.X",
@@ -88,6 +88,9 @@ TEMPLATES = {
     "dotted-const-assign": ["CONST My.Const = 1", "{1} = 2"], "dotted-const-input": ["CONST My.Const = 1", "READ {1}", "DATA 5"],
     "arr-arg": ["MyArrSub {1}"], "str-arr-arg": ["DIM FxArr(2) AS STRING * 3", "MyStrArrSub {1}"], "close-n": ["CLOSE {1}"], "print-n": ["PRINT {1}, 1"], "input-n": ["INPUT {1}, N%"], "get-n": ["GET {1}, 1"],
     "line-input-n": ["LINE INPUT {1}, S$"], "put-n": ["PUT {1}, 1"], "field-n": ["FIELD {1}, 4 AS F$"], "print-using-n": ['PRINT {1}, USING "#"; 1'],
+    "fixed-const-len": ["CONST Kc = {1}", "DIM Fq AS STRING * Kc", "Fq = \"abc\"", "PRINT Fq; LEN(Fq)"],
+    "fixed-const-len-type": ["CONST Kc = {1}", "DIM Fr(2) AS STRING * Kc", "PRINT LEN(Fr(1))"],
+    "fixed-const-len-arr": ["CONST Kc% = {1}", "REDIM Fs(2) AS STRING * Kc%", "PRINT LEN(Fs(1))"],
     "eof-n": ["PRINT EOF({1})"], "open-as-n": ['OPEN "T.TXT" FOR OUTPUT AS {1}', "CLOSE"],
     "fixed-member": ["Rec.S = {1}", "PRINT Rec.S; LEN(Rec.S)"], "fixed-var": ["DIM Fx AS STRING * 3", "Fx = {1}", "PRINT Fx; LEN(Fx)"],
     "fixed-lset": ['OPEN "R.DAT" FOR RANDOM AS #1 LEN = 4', "FIELD #1, 4 AS F$", "LSET F$ = {1}", "PRINT F$; LEN(F$)"],
